@@ -1745,3 +1745,235 @@ Proof.
   - apply us_disconnect; auto.
   - apply us_fuel; reflexivity.
 Qed.
+
+(* ---------- between steps the reader holds no fragment, and a deferred READ exists only in the wait -- *)
+
+Definition good (s : ostate) : Prop :=
+  s_pending s = None /\ (is_uw (s_control s) = false -> s_deferred s = None).
+
+Definition stage_pre (st : stage) (s : ostate) : Prop :=
+  match st with
+  | St4 _ => s_deferred s = None
+  | _ => s_pending s = None \/ s_deferred s = None
+  end.
+
+Lemma check_unsolicited_frame : forall cfg s s' b o,
+  check_unsolicited cfg s = (s', b, o) -> s_control s = CIdle ->
+  s_pending s' = s_pending s /\ s_deferred s' = s_deferred s /\
+  (s_control s' = CIdle \/ is_uw (s_control s') = true).
+Proof.
+  intros cfg s s' b o H Hc. apply check_unsolicited_spec in H.
+  destruct H as [[_ Hk]|[(_ & _ & Hst)|(_ & dl & c1 & c2 & c3 & body & o' & _ & _ & _ & _ & _ & Hst)]].
+  - unfold kview, wview in Hk. repeat split; try congruence. left. congruence.
+  - destruct Hst as (r & o1 & _ & _ & _ & _ & _ & Hc' & _ & _ & _ & _ & Hd & Hp & _).
+    repeat split; try assumption. right. rewrite Hc'. reflexivity.
+  - destruct Hst as (r & o1 & _ & _ & _ & _ & _ & Hc' & _ & _ & _ & _ & Hd & Hp & _).
+    repeat split; try assumption. right. rewrite Hc'. reflexivity.
+Qed.
+
+Lemma idle_run_good : forall cfg fuel st s s' o,
+  idle_run fuel cfg st s = (s', o) -> s_control s = CIdle -> stage_pre st s ->
+  In OOutOfFuel o \/ good s'.
+Proof.
+  induction fuel as [|f IH]; intros st s s' o H Hc Hpre; cbn [idle_run] in H.
+  { inv_pair H. left. left. reflexivity. }
+  assert (Happ : forall (a b : list oobs) g, In OOutOfFuel b \/ g -> In OOutOfFuel (a ++ b) \/ g).
+  { intros a b g [X|X]; [left; apply in_or_app; right; exact X|right; exact X]. }
+  destruct st as [| |ns|ns]; cbn [stage_pre] in Hpre.
+  - destruct (s_pending s) as [[[[[from bc] bytes] d] fid]|] eqn:Ep.
+    + destruct (handle_from_idle cfg (upd_pending s None) from bc bytes d fid) as [s1 o1] eqn:E1.
+      apply handle_from_idle_spec in E1. destruct E1 as (Hu & Hcs & _). unfold uview in Hu. psimpl_in Hu.
+      assert (Hp1 : s_pending s1 = None) by congruence.
+      assert (Hd1 : s_deferred s1 = None) by (destruct Hpre as [X|X]; [discriminate X|congruence]).
+      destruct (s_control s1) eqn:Ec1.
+      * destruct (idle_run f cfg St2 s1) as [s2 o2] eqn:E2. inv_pair H. apply Happ.
+        eapply IH; [exact E2|exact Ec1|left; exact Hp1].
+      * inv_pair H. right. split; [exact Hp1|intros _; exact Hd1].
+      * inv_pair H. right. split; [exact Hp1|intros _; exact Hd1].
+    + rewrite Hc in H. destruct (idle_run f cfg St2 s) as [s2 o2] eqn:E2. inv_pair H.
+      eapply IH; [exact E2|exact Hc|left; exact Ep].
+  - destruct (check_unsolicited cfg s) as [[s2 b] o2] eqn:E2.
+    apply check_unsolicited_frame in E2; [|exact Hc]. destruct E2 as (Hp2 & Hd2 & Hc2).
+    destruct (s_control s2) as [|se dl r|resp n ret dl] eqn:Ec2.
+    + destruct (idle_run f cfg (St3 false) s2) as [s3 o3] eqn:E3. inv_pair H. apply Happ.
+      eapply IH; [exact E3|exact Ec2|]. cbn [stage_pre]. rewrite Hp2, Hd2. exact Hpre.
+    + destruct Hc2 as [X|X]; discriminate X.
+    + destruct (s_pending s2) as [[[[[from bc] bytes] d] fid]|] eqn:Ep2.
+      * destruct (unsol_wait_fragment cfg (upd_pending s2 None) resp from bc bytes d fid) as [[s3 res] o3] eqn:E3.
+        apply unsol_wait_fragment_spec in E3. destruct E3 as (Hw & _). unfold wview in Hw. psimpl_in Hw.
+        assert (Hp3 : s_pending s3 = None) by congruence.
+        destruct res as [r|].
+        -- destruct (end_unsol cfg s3 n r) as [[s4 ns] o4] eqn:E4.
+           destruct (idle_run f cfg (St3 ns) s4) as [s5 o5] eqn:E5. inv_pair H.
+           apply end_unsol_spec in E4. destruct E4 as (Hc4 & Hv4 & _).
+           apply Happ. apply Happ. apply Happ.
+           eapply IH; [exact E5|exact Hc4|]. cbn [stage_pre]. left. congruence.
+        -- inv_pair H. right. split; [exact Hp3|].
+           replace (s_control s') with (s_control s2) by congruence. rewrite Ec2. discriminate.
+      * inv_pair H. right. split; [exact Ep2|]. rewrite Ec2. discriminate.
+  - destruct (handle_deferred cfg s ns) as [s3 o3] eqn:E3.
+    apply handle_deferred_spec in E3.
+    assert (H3 : s_deferred s3 = None /\ s_pending s3 = s_pending s /\ (s_deferred s <> None -> s_pending s = None)).
+    { destruct (s_deferred s) as [d|] eqn:Ed.
+      - destruct E3 as (Hd & Hv & _). unfold dview in Hv. split; [exact Hd|]. split; [congruence|].
+        intros _. destruct Hpre as [X|X]; [exact X|discriminate X].
+      - destruct E3 as [-> _]. split; [exact Ed|]. split; [reflexivity|]. intros X. contradiction. }
+    destruct H3 as (Hd3 & Hp3 & Hdp).
+    destruct (s_control s3) eqn:Ec3.
+    + destruct (idle_run f cfg (St4 ns) s3) as [s4 o4] eqn:E4. inv_pair H. apply Happ.
+      eapply IH; [exact E4|exact Ec3|exact Hd3].
+    + inv_pair H. right. split; [|intros _; exact Hd3].
+      destruct (s_deferred s) as [d|] eqn:Ed; [rewrite Hp3; apply Hdp; discriminate|].
+      destruct E3 as [-> _]. rewrite Hc in Ec3. discriminate.
+    + inv_pair H. right. split; [|intros _; exact Hd3].
+      destruct (s_deferred s) as [d|] eqn:Ed; [rewrite Hp3; apply Hdp; discriminate|].
+      destruct E3 as [-> _]. rewrite Hc in Ec3. discriminate.
+  - destruct (s_pending s) eqn:Ep.
+    + eapply IH; [exact H|exact Hc|right; exact Hpre].
+    + destruct ns; [eapply IH; [exact H|exact Hc|right; exact Hpre]|].
+      destruct (s_notify s).
+      * eapply IH; [exact H|exact Hc|right; exact Hpre].
+      * inv_pair H. right. split; [exact Ep|intros _; exact Hpre].
+Qed.
+
+Lemma fuel_app : forall (a b : list oobs) (g : Prop), In OOutOfFuel b \/ g -> In OOutOfFuel (a ++ b) \/ g.
+Proof. intros a b g [X|X]; [left; apply in_or_app; right; exact X|right; exact X]. Qed.
+
+Lemma stage_pre_good : forall r s, s_pending s = None -> s_deferred s = None -> stage_pre (stage_of r) s.
+Proof. intros [|ns] s Hp Hd; cbn; auto. Qed.
+
+Lemma resume_at_good : forall cfg st s s' o,
+  resume_at cfg st s = (s', o) -> s_control s = CIdle -> stage_pre st s -> In OOutOfFuel o \/ good s'.
+Proof. intros cfg st s s' o H. unfold resume_at in H. eapply idle_run_good; exact H. Qed.
+
+Lemma idle_loop_good : forall cfg n s s' o,
+  idle_loop n cfg s = (s', o) -> s_control s = CIdle -> stage_pre St1 s -> In OOutOfFuel o \/ good s'.
+Proof. intros cfg n s s' o H. unfold idle_loop in H. eapply idle_run_good; exact H. Qed.
+
+Lemma fire_good : forall cfg s t s1 o1,
+  good s -> fire_deadline cfg (upd_now s t) = (s1, o1) -> In OOutOfFuel o1 \/ good s1.
+Proof.
+  intros cfg s t s1 o1 [Hp Hd] H. unfold fire_deadline in H.
+  change (s_control (upd_now s t)) with (s_control s) in H.
+  destruct (s_control s) as [|se dl r|resp n ret dl] eqn:Ec.
+  - eapply resume_at_good; [exact H|exact Ec|left; exact Hp].
+  - destruct (resume_at cfg (stage_of r) (upd_control (upd_now s t) CIdle)) as [s2 o2] eqn:E. inv_pair H.
+    apply (fuel_app [_; _]). eapply resume_at_good; [exact E|reflexivity|].
+    apply stage_pre_good; [exact Hp|apply Hd; reflexivity].
+  - cbv zeta in H. destruct (_ && _).
+    + inv_pair H. right. split; [exact Hp|]. cbn. discriminate.
+    + destruct (end_unsol cfg (upd_now s t) n UrTimeout) as [[s2 ns] o2] eqn:E2.
+      destruct (resume_at cfg (St3 ns) s2) as [s3 o3] eqn:E3. inv_pair H.
+      apply end_unsol_spec in E2. destruct E2 as (Hc2 & Hv2 & _). psimpl_in Hv2.
+      apply (fuel_app [_]). apply fuel_app.
+      eapply resume_at_good; [exact E3|exact Hc2|]. left. congruence.
+Qed.
+
+Lemma good_upd_now : forall s t, good s -> good (upd_now s t).
+Proof. intros s t H. exact H. Qed.
+
+Lemma advance_good : forall cfg fuel s target s' o,
+  good s -> advance fuel cfg s target = (s', o) -> In OOutOfFuel o \/ good s'.
+Proof.
+  induction fuel as [|f IH]; intros s target s' o Hg H; cbn [advance] in H.
+  { inv_pair H. left. left. reflexivity. }
+  destruct (next_deadline cfg s) as [d|].
+  - destruct (d <=? target)%Z.
+    + destruct (fire_deadline cfg (upd_now s (Z.max d (s_now s)))) as [s1 o1] eqn:E1.
+      destruct (advance f cfg s1 target) as [s2 o2] eqn:E2. inv_pair H.
+      apply fire_good in E1; [|exact Hg]. destruct E1 as [X|Hg1].
+      * left. right. apply in_or_app. left. exact X.
+      * apply (fuel_app (_ :: o1)). eapply IH; eauto.
+    + inv_pair H. right. exact Hg.
+  - inv_pair H. right. exact Hg.
+Qed.
+
+Lemma on_rx_good : forall cfg s from bc bytes d s' o,
+  good s -> on_rx cfg s from bc bytes d = (s', o) -> In OOutOfFuel o \/ good s'.
+Proof.
+  intros cfg s from bc bytes d s' o [Hp Hd] H. unfold on_rx in H. cbv zeta in H.
+  set (fid := (s_frame_id s + 1) mod 4294967296) in *.
+  set (s0 := upd_frame_id s fid) in *.
+  change (s_control s0) with (s_control s) in H.
+  destruct (s_control s) as [|se dl r|resp n ret dl] eqn:Ec.
+  - eapply idle_loop_good; [exact H|exact Ec|]. right. apply Hd. reflexivity.
+  - specialize (Hd eq_refl).
+    destruct (sol_wait_fragment cfg s0 se dl from bc bytes d) as [out o1] eqn:E1.
+    destruct out as [dl'|rt|].
+    + inv_pair H. right. split; [exact Hp|intros _; exact Hd].
+    + destruct (se_fin se).
+      * destruct (resume_at cfg (stage_of r) (upd_control (upd_last_bcast s0 None) CIdle)) as [s2 o2] eqn:E2.
+        inv_pair H. apply fuel_app. apply (fuel_app [_]).
+        eapply resume_at_good; [exact E2|reflexivity|]. apply stage_pre_good; [exact Hp|exact Hd].
+      * destruct (format_read_response (upd_last_bcast s0 None) false (seq16_next (se_ecsn se)) 0)
+          as [[[s2 rsp] next] o2] eqn:E2.
+        destruct (write_solicited s2 rt rsp) as [[s3 rsp'] o3] eqn:E3.
+        apply format_read_response_spec in E2. destruct E2 as (F2 & _).
+        pose proof (write_solicited_frame _ _ _ _ _ _ E3) as F3.
+        pose proof (frame_trans _ _ _ F2 F3) as F. apply frame_dview in F. destruct F as (Fv & _ & Fd).
+        unfold dview in Fv. unfold s0 in Fv, Fd. psimpl_in Fv. psimpl_in Fd.
+        assert (Hp3 : s_pending s3 = None) by congruence.
+        assert (Hd3 : s_deferred s3 = None) by congruence.
+        destruct next as [nx|].
+        -- inv_pair H. right. split; [exact Hp3|intros _; exact Hd3].
+        -- match type of H with (let '(_, _) := ?X in _) = _ => destruct X as [s5 o5] eqn:E5 end. inv_pair H.
+           apply fuel_app. apply (fuel_app [_]). apply fuel_app. apply fuel_app.
+           eapply resume_at_good; [exact E5|reflexivity|]. apply stage_pre_good; [exact Hp3|exact Hd3].
+    + destruct (resume_at cfg (stage_of r) (upd_pending (upd_control s0 CIdle) (Some (from, bc, bytes, d, fid))))
+        as [s2 o2] eqn:E2. inv_pair H.
+      apply fuel_app. apply (fuel_app [_]).
+      eapply resume_at_good; [exact E2|reflexivity|]. destruct r; cbn; auto.
+  - destruct (unsol_wait_fragment cfg s0 resp from bc bytes d fid) as [[s1 res] o1] eqn:E1.
+    apply unsol_wait_fragment_spec in E1. destruct E1 as (Hw & _). unfold wview in Hw. unfold s0 in Hw. psimpl_in Hw.
+    assert (Hp1 : s_pending s1 = None) by congruence.
+    destruct res as [r|].
+    + destruct (end_unsol cfg s1 n r) as [[s2 ns] o2] eqn:E2.
+      destruct (resume_at cfg (St3 ns) s2) as [s3 o3] eqn:E3. inv_pair H.
+      apply end_unsol_spec in E2. destruct E2 as (Hc2 & Hv2 & _).
+      apply fuel_app. apply fuel_app.
+      eapply resume_at_good; [exact E3|exact Hc2|]. left. congruence.
+    + inv_pair H. right. split; [exact Hp1|].
+      replace (s_control s') with (s_control s) by congruence. rewrite Ec. discriminate.
+Qed.
+
+Theorem ostep_good : forall cfg s ev a s' o,
+  good s -> ostep cfg s ev a = (s', o) -> In OOutOfFuel o \/ good s'.
+Proof.
+  intros cfg s ev a s' o Hg H. unfold ostep in H.
+  set (s0 := upd_answers s a) in *.
+  assert (Hg0 : good s0) by exact Hg.
+  destruct ev as [from bc bytes d|ms| |sel op|v|].
+  - destruct (on_rx cfg s0 from bc bytes d) as [s1 o1] eqn:E1.
+    destruct (advance 64 cfg s1 (s_now s1 + settle_ms)) as [s2 o2] eqn:E2. inv_pair H.
+    apply on_rx_good in E1; [|exact Hg0]. destruct E1 as [X|Hg1]; [left; apply in_or_app; left; exact X|].
+    apply fuel_app. eapply advance_good; [exact Hg1|exact E2].
+  - destruct (advance 4096 cfg s0 (s_now s0 + ms)) as [sa oa] eqn:Ea. inv_pair H.
+    eapply advance_good; [exact Hg0|exact Ea].
+  - change (s_control s0) with (s_control s) in H.
+    assert (Hfirst : exists s1 o1 o2, (In OOutOfFuel o1 \/ good s1) /\
+                       advance 64 cfg s1 (s_now s1 + settle_ms) = (s', o2) /\ o = o1 ++ o2).
+    { destruct (s_control s) eqn:Ec.
+      - destruct (idle_loop 8 cfg s0) as [s1 o1] eqn:E1.
+        destruct (advance 64 cfg s1 (s_now s1 + settle_ms)) as [s2 o2] eqn:E2. inv_pair H.
+        exists s1, o1, o2. split; [|split; [exact E2|reflexivity]].
+        eapply idle_loop_good; [exact E1|exact Ec|]. left. apply Hg.
+      - destruct (advance 64 cfg (upd_notify s0 true) (s_now (upd_notify s0 true) + settle_ms)) as [s2 o2] eqn:E2.
+        inv_pair H. exists (upd_notify s0 true), []. eexists. split; [right; exact Hg|]. split; [exact E2|reflexivity].
+      - destruct (advance 64 cfg (upd_notify s0 true) (s_now (upd_notify s0 true) + settle_ms)) as [s2 o2] eqn:E2.
+        inv_pair H. exists (upd_notify s0 true), []. eexists. split; [right; exact Hg|]. split; [exact E2|reflexivity]. }
+    destruct Hfirst as (s1 & o1 & o2 & [X|Hg1] & E2 & ->); [left; apply in_or_app; left; exact X|].
+    apply fuel_app. eapply advance_good; [exact Hg1|exact E2].
+  - cbv beta iota in H. inv_pair H. right. exact Hg.
+  - cbv beta iota in H. inv_pair H. right. exact Hg.
+  - set (s1 := upd_pending (upd_control (session_reset s0) CIdle) None) in H.
+    destruct (idle_loop 8 cfg s1) as [s2 o2] eqn:E2.
+    destruct (advance 64 cfg s2 (s_now s2 + settle_ms)) as [s3 o3] eqn:E3. inv_pair H.
+    apply (fuel_app [_; _]).
+    apply idle_loop_good in E2; [|reflexivity|left; reflexivity].
+    destruct E2 as [X|Hg2]; [left; apply in_or_app; left; exact X|].
+    apply fuel_app. eapply advance_good; [exact Hg2|exact E3].
+Qed.
+
+Theorem ostart_good : forall cfg sel op iin a s' o,
+  ostart cfg sel op iin a = (s', o) -> In OOutOfFuel o \/ good s'.
+Proof. intros. unfold ostart in H. eapply idle_loop_good; [exact H|reflexivity|left; reflexivity]. Qed.
